@@ -18,14 +18,14 @@ RULE = ("Three case kinds. (interp, 84 %) geometry (dense 3B2 / NP2.1 / NP2.4 (s
         "of its admissible channels (not labelled 1/2, exp(-(d/kd)^p) >= 0.005) at every sample, all zero without any; "
         "same output after the bad rows of the input were replaced by junk; and the function applied to the identity "
         "matrix must return, in each bad row, weights >= 0 that vanish outside the admissible set and sum to 1 "
-        "(+-1e-10) - the literal 'convex combination'. (detect, 14.5 %) coherent AP-band background (1-4 band-limited "
+        "(+-1e-10) - the literal 'convex combination'. (detect, 15 %) coherent AP-band background (1-4 band-limited "
         "common sources x smooth per-channel gains + 2-6 uV white noise, 96..384 channels, 0.2-0.4 s at 30 kHz) with at "
         "most one silent channel (zeros or 1 uV own noise), one channel with 45-140 uV broadband noise (added to, or "
         "replacing, the signal) and a top block of 0..40 channels without the common signal, positions drawn over the "
         "whole probe incl. both ends, next to / inside the block; labels must equal the injected vector (a silent "
         "channel that is the last channel, touches the block from below or lies inside it may be 1 or 3). Every silent "
         "position 0..383, every noisy position and every block size 0..40 is enumerated once per background. (file, "
-        "1.5 %) 384-channel 3B2 / NP2.1 recording (bin or cbin) of 3-5 batches separated by guard gaps, each batch with "
+        "1 %) 384-channel 3B2 / NP2.1 recording (bin or cbin) of 3-5 batches of 0.15-0.3 s separated by guard gaps, each batch with "
         "its own fault set; detect_bad_channels_cbin must return, per channel, a most frequent value of the injected "
         "per-batch labels and of the labels detect_bad_channels gives on the harness' own copy of each batch. "
         "Non-trivial = interp: a bad channel with another bad channel inside its neighbourhood or at an end of the "
@@ -501,7 +501,7 @@ def _detect_case(draw):
 
 @st.composite
 def _file_case(draw):
-    nb = draw(st.sampled_from([3, 3, 5, 4]))
+    nb = draw(st.sampled_from([3, 3, 3, 5, 4]))
     nc = 384
     base = draw(_st_fault(nc, file_safe=True))
     faults = []
@@ -515,12 +515,12 @@ def _file_case(draw):
         faults.append(_sanitize(f, nc))  # the block edge moved: re-apply the placement rule of the replaced-by-noise variant
     gen = draw(st.sampled_from(["3B2", "NP2.1"]))
     return {"kind": "file", "gen": gen, "cbin": draw(st.sampled_from([False, False, True])), "nb": nb,
-            "bd": draw(st.sampled_from([0.3, 0.2])), "gap": 0.06, "fs": draw(st.sampled_from([FS_AP, 29999.757983])),
+            "bd": draw(st.sampled_from([0.3, 0.2, 0.15, 0.15])), "gap": 0.06, "fs": draw(st.sampled_from([FS_AP, 29999.757983])),
             "bg": draw(_st_bg()), "faults": faults, "sync_seed": draw(st.integers(0, 2 ** 16))}
 
 
 def strategy(tier):
-    return st.integers(0, 199).flatmap(lambda k: _interp_case() if k < 168 else (_detect_case() if k < 197 else _file_case()))
+    return st.integers(0, 199).flatmap(lambda k: _interp_case() if k < 168 else (_detect_case() if k < 198 else _file_case()))
 
 
 # ------------------------------------------------------------------------------------------------------------------
@@ -686,7 +686,7 @@ def _run_file(case, ctx):
         binf = rec.write_recording(d, spec, D)
         path = rec.compress(binf, nc + 1, fs, 30000, keep_bin=False) if case["cbin"] else binf
         del D
-        kw = {"n_batches": nb, "batch_duration": bd}
+        kw = {"n_batches": nb} if bd == 0.3 else {"n_batches": nb, "batch_duration": bd}  # 0.3 s is the default
         got = ctx.call("C15.file", v.detect_bad_channels_cbin, path, **kw)
     if got is ctx.CRASH:
         return
@@ -719,7 +719,8 @@ def _run_file(case, ctx):
 # exhaustive sweeps (detection)
 
 SWEEP_BG = {"quick": [11], "thorough": [11, 12, 13, 14, 15, 16]}
-SWEEP_SHARDS = 16
+SWEEP_SHARDS = 13
+CORNER_SHARDS = 3
 SWEEP_NS = {"quick": 6000, "thorough": 9000}
 
 
@@ -732,7 +733,7 @@ def _sweep_bg(seed):
 
 def enum_shards(tier):
     out = [{"bg": s, "shard": i, "ns": SWEEP_NS[tier]} for s in SWEEP_BG[tier] for i in range(SWEEP_SHARDS)]
-    out.append({"corners": True, "ns": SWEEP_NS[tier]})
+    out.extend({"corners": True, "part": i, "ns": SWEEP_NS[tier]} for i in range(CORNER_SHARDS))
     return out
 
 
@@ -754,7 +755,7 @@ def _corner_faults(nc=384):
 def enum_cases(desc):
     nc = 384
     if desc.get("corners"):
-        for f in _corner_faults(nc):
+        for f in _corner_faults(nc)[desc.get("part", 0)::CORNER_SHARDS if "part" in desc else 1]:
             f.setdefault("blk", 0)
             yield {"kind": "detect", "nc": nc, "ns": desc["ns"], "fs": FS_AP, "dtype": "f8", "bg": _sweep_bg(10), "fault": f}
         return
